@@ -36,6 +36,21 @@ CHECKS = {
         technique="TLA+ generator spec (DocWriter.tla) composed with the reference parser (DocCheck.tla), TLC; exact replay "
                   "into the real parser",
         ref="DESIGN.md §5 C02"),
+    'C04': dict(
+        text="Encoder.tla is the documented rule semantics (NFC, left-to-right, first matching rule of the three kinds "
+             "supplies replacement and consumption, protection with per-rule override, pass-through, unknown_char_policy, "
+             "non_ascii_only); TLC checks its stated consequences (homomorphism for per-character rules, fail exactly on "
+             "unmatched characters, ASCII-only output) on every string up to the bound under generated configurations; each "
+             "configuration is instantiated with real rule objects (dict, compiled regex, logging callable) and output, "
+             "ValueError and rule-consultation log must equal the model's. The built-in tables are extracted and exercised "
+             "chunk by chunk; the cached module-level helper is driven through histories (EncHelper.tla); "
+             "PartialLatexToLatexEncoder is checked against PartialEnc.tla (token boundaries from Tokenizer.tla).",
+        note="Bounded: strings <=3/4 over 10 character classes, rule lists <=2/3 from a pool of 6 rules, 5 schemes x 5 "
+             "policies x non_ascii_only; table chunks (sample in quick, all in thorough) with strings <=2; helper histories "
+             "<=3/4; partial encoder strings <=3/4 atoms. Regex rules are literals (no zero-width matches).",
+        technique="TLA+ semantics spec (Encoder.tla, PartialEnc.tla, EncHelper.tla) model-checked with TLC; exact replay "
+                  "with real rule objects",
+        ref="DESIGN.md §5 C04"),
     'C05': dict(
         text="The strict reference parser predicts tree-or-error and the error position for every string up to the "
              "bound; TLC checks that every model error is located inside the input; the real outcome (class, position, "
@@ -99,6 +114,19 @@ CHECKS = {
         technique="TLA+ reader model (Tokenizer.tla, TokReader.tla) model-checked with TLC and replayed; implementation "
                   "event traces validated by TLC against an acceptor spec (TokStream.tla)",
         ref="DESIGN.md §5 C11"),
+    'C13': dict(
+        text="EncParse.tla composes the encoder model, instantiated with the real entries of the LaTeX-active ASCII "
+             "characters of either built-in table, with the strict reference parser: TLC checks for every string over the "
+             "active alphabet and every scheme that the output parses strictly, that the tree has no comment, environment "
+             "or math node, and that it is ASCII; real encoder output and real parse must agree; every built-in character "
+             "alone and between active characters and odd code points per policy are encoded, parsed and judged by the TLC "
+             "acceptors (TraceTree 'inert', Outcome); ASCII-only and fail-iff-unmatched are TLC invariants on the model "
+             "instantiated with table chunks.",
+        note="Bounded: strings <=3/4 over 16 characters x 5 schemes x 2 tables for the composition; one third (quick) / all "
+             "(thorough) table characters in 5 neighbour contexts. One known finding (unicode-xml combining accents).",
+        technique="TLA+ composition encoder x parser (EncParse.tla) model-checked with TLC; replay; TLC acceptors on real "
+                  "outputs",
+        ref="DESIGN.md §5 C13"),
     'C14': dict(
         text="TLC explores every history of the context-database mutators and derivations up to the bound on a "
              "reference model that keeps both bookkeeping structures of the code, and checks lookup-follows-reported-"
